@@ -8,6 +8,7 @@ from ..cfg import cfg_of
 from .. import util as U
 from .. import schema as S
 from .. import inputpaths as IP
+from .. import dataflow
 
 A = ('Assembly', '__many__')
 AR = A + ('AxialRegion', '__many__')
@@ -76,7 +77,19 @@ def run(ctx):
         'R6 before convert_units runs, a raw (user-unit) length or '
         'temperature never leaves the reader (argument of a call into '
         'another module) and is never compared with a dimensional literal, '
-        'unless it passes through a unit converter first']
+        'unless it passes through a unit converter first',
+        'R7 a container that a converter rewrites in place through a '
+        'position index (Assignment/ByPosition/i/N) is a fresh object for '
+        'every position: the value stored per position is a copy or a fresh '
+        'literal, never a reference that is invariant in the loop that varies '
+        'the position (one input line covering several positions would be '
+        'converted once per position)',
+        'R8 the default unit system is a supported unit system: the unit '
+        'getters of utils raise when asked to convert a unit to itself, so '
+        'every getter call in the reader and the output tables lies under a '
+        'guard that excludes the default unit of *that* dimension (or inside '
+        'try/except ValueError); a disjunction over two dimensions (mass or '
+        'time) guards neither']
     ctx.not_decided += ['equality of meshes and temperatures across units']
     keys, sections = S.parse_template(ctx.repo.template_text)
     r5(ctx, keys)
@@ -84,6 +97,10 @@ def run(ctx):
     r3(ctx)
     r4(ctx)
     r6(ctx, keys, sections)
+    r7(ctx)
+    ctx.min_instances('C17.R7', 2)
+    r8(ctx)
+    ctx.min_instances('C17.R8', 8)
     ctx.min_instances('C17.R6', 10)
     ctx.min_instances('C17.R1', 24)
     ctx.min_instances('C17.R3', 5)
@@ -683,3 +700,202 @@ def r6(ctx, keys, sections):
                             % (m.full, d, lv))
     ctx.extra['pre_conversion_methods'] = len(seen)
     ctx.extra['pre_conversion_uses_examined'] = n
+
+
+# ---------------------------------------------------------------------------
+# R7: in-place converted containers are not shared between positions
+
+_COPIERS = ('copy.deepcopy', 'deepcopy', 'copy.copy', 'dict', 'list')
+
+
+def _fresh(e, loop, _depth=0):
+    """Expression e yields a new object on every iteration of `loop`."""
+    if isinstance(e, (ast.Dict, ast.DictComp, ast.List, ast.ListComp,
+                      ast.Constant, ast.Tuple, ast.JoinedStr)):
+        return True
+    if isinstance(e, ast.Call):
+        nm = call_name(e) or ''
+        if nm in _COPIERS:
+            return True
+        if isinstance(e.func, ast.Attribute) and e.func.attr == 'copy':
+            return True
+        return True        # a call result: not a stored reference
+    # a reference: fresh only if its root is (re)bound inside the loop body
+    root = e
+    while isinstance(root, (ast.Subscript, ast.Attribute)):
+        root = root.value
+    if isinstance(root, ast.Name):
+        bound_in = any(root.id in [x.id for t in U.stmt_targets(st)
+                                   for x in ast.walk(t)
+                                   if isinstance(x, ast.Name)]
+                       for st in ast.walk(loop) if isinstance(st, ast.stmt)
+                       and st is not loop)
+        own = any(isinstance(x, ast.Name) and x.id == root.id
+                  for x in ast.walk(loop.target))
+        if own:
+            return True
+        if bound_in:
+            # bound in the body: fresh only if every such binding is
+            defs = [st for st in ast.walk(loop) if isinstance(st, ast.Assign)
+                    and len(st.targets) == 1 and isinstance(
+                        st.targets[0], ast.Name)
+                    and st.targets[0].id == root.id]
+            if defs and _depth < 4:
+                return all(_fresh(d.value, loop, _depth + 1) for d in defs)
+            return True
+        return False
+    return False
+
+
+def r7(ctx):
+    repo = ctx.repo
+    rm = repo.mod('read_input')
+    # which element of a ByPosition entry do the converters rewrite in place
+    elems = set()
+    for fi in rm.funcs.values():
+        if not (fi.cls is None and fi.name.startswith('convert_')):
+            continue
+        for t, st in U.stores(fi.node):
+            root, subs = IP.chain(t)
+            cs = [const(x) for x in subs]
+            if 'ByPosition' in cs:
+                k = cs.index('ByPosition')
+                if len(subs) >= k + 4 and isinstance(cs[k + 2], int):
+                    elems.add(cs[k + 2])
+    if not elems:
+        raise AnalysisError('no converter rewrites ByPosition entries in '
+                            'place any more: revisit C17.R7')
+    ctx.ok('C17.R7', 'dassh/read_input.py', None,
+           'converters rewrite element(s) %s of a ByPosition entry in place'
+           % sorted(elems))
+    n = 0
+    for fi in rm.funcs.values():
+        if fi.mod is not rm:
+            continue
+        for t, st in U.stores(fi.node):
+            if not (isinstance(st, ast.Assign) and isinstance(t, ast.Subscript)
+                    and isinstance(t.value, ast.Subscript)
+                    and const(t.value.slice) == 'ByPosition'):
+                continue
+            loops = [l for l in U.enclosing_loops(st)
+                     if isinstance(l, ast.For)]
+            idx_names = {x.id for x in ast.walk(t.slice)
+                         if isinstance(x, ast.Name)}
+            # the loop that varies the position index
+            var = [l for l in loops
+                   if idx_names & {x.id for x in ast.walk(l.target)
+                                   if isinstance(x, ast.Name)}]
+            if not var:
+                continue
+            loop = var[0]
+            n += 1
+            v = st.value
+            whole_copy = isinstance(v, ast.Call) and (call_name(v) or '') in (
+                'copy.deepcopy', 'deepcopy')
+            if whole_copy:
+                ctx.ok('C17.R7', fi, st, 'entry is a deep copy per position')
+                continue
+            bad = []
+            if isinstance(v, (ast.List, ast.Tuple)):
+                for e_i in sorted(elems):
+                    if e_i < len(v.elts) and not _fresh(v.elts[e_i], loop):
+                        bad.append('element %d (%s)' % (e_i,
+                                                        src(v.elts[e_i])))
+            elif not _fresh(v, loop):
+                bad.append(src(v)[:60])
+            ctx.require(not bad, 'C17.R7', fi, st,
+                        'the ByPosition entry stored for each position '
+                        'shares %s between all positions of the loop over %s: '
+                        'the unit converters rewrite it in place once per '
+                        'position, so the value is converted several times'
+                        % (', '.join(bad), src(loop.target)),
+                        key='%s | ByPosition entry sharing' % fi.full)
+    if n == 0:
+        raise AnalysisError('construction site of ByPosition entries not '
+                            'found: revisit C17.R7')
+
+
+# ---------------------------------------------------------------------------
+# R8: getter calls cannot be asked to convert a unit to itself
+
+_GETTER_DIM = {'get_length_conversion': 'length',
+               'get_temperature_conversion': 'temperature',
+               'get_mass_conversion': 'mass', 'get_time_conversion': 'time'}
+
+
+def _excludes_default(test, pol, dim, top_only=True):
+    """(test, polarity) establishes `unit not in _DEFAULT_UNITS[dim]`."""
+    if isinstance(test, ast.UnaryOp) and isinstance(test.op, ast.Not):
+        return _excludes_default(test.operand, not pol, dim)
+    if isinstance(test, ast.BoolOp):
+        # and/True: any conjunct suffices; or/False: any disjunct's negation
+        if (isinstance(test.op, ast.And) and pol) or \
+                (isinstance(test.op, ast.Or) and not pol):
+            return any(_excludes_default(v, pol, dim) for v in test.values)
+        return False
+    if isinstance(test, ast.Compare) and len(test.ops) == 1:
+        comp = ' '.join(src(test.comparators[0]).split())
+        if comp.endswith("_DEFAULT_UNITS['%s']" % dim):
+            return (isinstance(test.ops[0], ast.NotIn) and pol) or \
+                (isinstance(test.ops[0], ast.In) and not pol)
+    return False
+
+
+def r8(ctx):
+    repo = ctx.repo
+    um = repo.mod('utils')
+    pre = um.funcs.get('_preprocess_units')
+    raises = pre is not None and any(isinstance(n, ast.Raise)
+                                     for n in ast.walk(pre.node))
+    uses = [q for q in _GETTER_DIM if q in um.funcs and any(
+        isinstance(c, ast.Call) and call_name(c) == '_preprocess_units'
+        for c in ast.walk(um.funcs[q].node))]
+    if not raises or len(uses) != len(_GETTER_DIM):
+        raise AnalysisError('utils getters no longer reject same-unit '
+                            'conversion through _preprocess_units: revisit '
+                            'C17.R8')
+    for modname in ('read_input', 'table'):
+        m = repo.mod(modname)
+        for fi in m.funcs.values():
+            for c in walk_no_nested(fi.node):
+                if not isinstance(c, ast.Call):
+                    continue
+                nm = (call_name(c) or '').split('.')[-1]
+                if nm not in _GETTER_DIM:
+                    continue
+                dim = _GETTER_DIM[nm]
+                ok = any(_excludes_default(t, pol, dim)
+                         for t, pol in U.guards(c) +
+                         dataflow.path_conditions(fi, c))
+                how = 'guarded in place'
+                if not ok:
+                    # try / except ValueError around the call
+                    p_ = parent(c)
+                    while p_ is not None and p_ is not fi.node:
+                        if isinstance(p_, ast.Try) and any(
+                                h.type is None or 'ValueError' in src(h.type)
+                                or src(h.type) == 'Exception'
+                                for h in p_.handlers) and any(
+                                    c in list(ast.walk(b)) for b in p_.body):
+                            ok = True
+                            how = 'inside try/except ValueError'
+                        p_ = parent(p_)
+                if not ok and fi.cls is None:
+                    # module-level converter: guarded at every call site
+                    sites = [x for f2 in m.funcs.values()
+                             for x in walk_no_nested(f2.node)
+                             if isinstance(x, ast.Call) and
+                             (call_name(x) or '') == fi.name]
+                    if sites and all(any(_excludes_default(t, pol, dim)
+                                         for t, pol in U.guards(x))
+                                     for x in sites):
+                        ok = True
+                        how = 'guarded at all %d call sites' % len(sites)
+                ctx.require(
+                    ok, 'C17.R8', fi, c,
+                    'utils.%s raises "Cannot convert unit to itself" when '
+                    'the %s unit is the default one, and no guard on the way '
+                    'to this call excludes the default %s unit: the problem '
+                    'written in that unit system stops with a traceback'
+                    % (nm, dim, dim), note=how,
+                    key='%s | %s unguarded' % (fi.full, nm))
